@@ -25,7 +25,7 @@ mod c08_columnar;
 #[path = "../c08_tantivy.rs"]
 mod c08_tantivy;
 
-const HEADER: &str = "From TV Require Import Base.Prelude Generated.Constants Columnar.BitPack Columnar.MonoMap Columnar.Stats Columnar.Line Columnar.Blockwise Columnar.Spec Columnar.Cases.";
+const HEADER: &str = "From TV Require Import Base.Prelude Generated.Constants Columnar.BitPack Columnar.MonoMap Columnar.Stats Columnar.Line Columnar.Blockwise Columnar.OptionalIndex Columnar.Spec Columnar.Cases.";
 
 // ------------------------------------------------------------------------------------------ generators
 pub fn width_mask(w: u32) -> u64 {
@@ -347,6 +347,68 @@ pub fn gen_range(rng: &mut Rng, vals: &[u64]) -> (u64, u64) {
     }
 }
 
+
+// ------------------------------------------------------------------------------------------ (O) optional index
+fn section_optional_index(rng: &mut Rng, out: &mut CaseOut, thorough: bool) {
+    use tantivy_columnar::column_index::{OptionalIndex, Set};
+    let n_cases = if thorough { 120 } else { 36 };
+    let mut dense_coq_budget = if thorough { 10 } else { 3 };
+    for ci in 0..n_cases {
+        // number of rows around 65536*k, per-block densities around the dense/sparse switch (5120)
+        let num_rows: u32 = match ci % 6 { 0 => rng.range(1, 300) as u32, 1 => *rng.pick(&[65535u32, 65536, 65537]), 2 => *rng.pick(&[131071u32, 131072, 131073, 200000]), 3 => rng.range(1, 70000) as u32, 4 => rng.range(65536, 140000) as u32, _ => rng.range(1, 5000) as u32 };
+        let nblocks = (num_rows as usize + 65535) / 65536;
+        let mut rows: Vec<u32> = vec![];
+        for b in 0..nblocks {
+            let lo = (b * 65536) as u32; let hi = ((b + 1) * 65536).min(num_rows as usize) as u32;
+            let target = *rng.pick(&[0u32, 1, 2, 40, 5119, 5120, 5121, 5200, 20000, 65535, 65536]);
+            let span = hi - lo;
+            let target = target.min(span);
+            // choose exactly `target` rows of the block: clustered or uniform
+            let mut chosen: Vec<u32> = if target == span { (lo..hi).collect() } else if rng.chance(1, 3) {
+                let start = lo + rng.below((span - target + 1) as u64) as u32; (start..start + target).collect()
+            } else {
+                let mut set = std::collections::BTreeSet::new();
+                while (set.len() as u32) < target { set.insert(lo + rng.below(span as u64) as u32); }
+                set.into_iter().collect()
+            };
+            rows.append(&mut chosen);
+        }
+        let desc = json!({"what": "optional index", "num_rows": num_rows, "non_null": rows.len(), "rows_head": &rows[..rows.len().min(10)]});
+        let r = guarded(|| {
+            let oi = OptionalIndex::for_test(num_rows, &rows);
+            // bulk spec on the implementation side: select/rank inverse on every row, membership on every doc
+            let sel_ok = rows.iter().enumerate().all(|(k, &r)| oi.select(k as u32) == r && oi.rank(r) == k as u32 && oi.rank_if_exists(r) == Some(k as u32) && oi.contains(r));
+            let iter_ok = oi.iter_non_null_docs().eq(rows.iter().copied());
+            let mut k = 0usize; let mut rank_ok = true;
+            for d in 0..num_rows { if k < rows.len() && rows[k] == d { k += 1; continue; } if oi.rank(d) != k as u32 || oi.rank_if_exists(d).is_some() || oi.contains(d) { rank_ok = false; break; } }
+            let counts_ok = oi.num_docs() == num_rows && oi.num_non_nulls() as usize == rows.len();
+            // sampled observations for the Coq cases
+            let mut docs: Vec<u32> = vec![0, num_rows - 1, num_rows, num_rows + 5, 65535, 65536, 65537, 63, 64, 131071, 131072];
+            for _ in 0..10 { if !rows.is_empty() { let r = rows[rng.below(rows.len() as u64) as usize]; docs.push(r); docs.push(r + 1); docs.push(r.saturating_sub(1)); } docs.push(rng.below(num_rows as u64 + 3) as u32); }
+            docs.sort(); docs.dedup();
+            let ranks: Vec<u32> = if rows.is_empty() { vec![] } else { let n = rows.len() as u32; let mut v = vec![0, n - 1, n / 2, 5119.min(n - 1), 5120.min(n - 1)]; for _ in 0..8 { v.push(rng.below(n as u64) as u32); } v.sort(); v.dedup(); v };
+            let er: Vec<u32> = docs.iter().map(|&d| oi.rank(d)).collect();
+            let erie: Vec<Option<u32>> = docs.iter().map(|&d| oi.rank_if_exists(d)).collect();
+            let esel: Vec<u32> = ranks.iter().map(|&k| oi.select(k)).collect();
+            (sel_ok, iter_ok, rank_ok, counts_ok, docs, ranks, er, erie, esel)
+        });
+        let Ok((sel_ok, iter_ok, rank_ok, counts_ok, docs, ranks, er, erie, esel)) = r else { out.spec_checked(false, json!({"what": "optional index panicked", "case": desc, "panic": r.err()})); continue; };
+        out.spec_checked(sel_ok, json!({"what": "optional index: select/rank/rank_if_exists/contains wrong on a non-null row", "case": desc}));
+        out.spec_checked(iter_ok, json!({"what": "optional index: iter_non_null_docs != rows", "case": desc}));
+        out.spec_checked(rank_ok, json!({"what": "optional index: rank / rank_if_exists / contains wrong on a null row", "case": desc}));
+        out.spec_checked(counts_ok, json!({"what": "optional index: num_docs / num_non_nulls", "case": desc}));
+        out.count("optional_index_cases", 1);
+        let has_dense = rows.len() >= 5120;
+        out.count(if has_dense { "optional_index_maybe_dense" } else { "optional_index_sparse_only" }, 1);
+        // Coq cases: small indexes always, a few with >= 5120 rows in a block (dense), literals kept moderate
+        if rows.len() > 6500 { continue; }
+        if rows.len() > 600 { if !has_dense || dense_coq_budget == 0 { continue; } dense_coq_budget -= 1; }
+        let args = format!("{} {} {} {} {} {}", cf::ns(&rows), cf::ns(&docs), cf::ns(&ranks), cf::ns(&er), cf::list(&erie, |o| cf::option(o, |x| x.to_string())), cf::ns(&esel));
+        out.coq_case("tie", format!("opt_tie {} {}", num_rows, args), desc.clone(), rows.len() >= 2);
+        out.coq_case("spec", format!("opt_spec {}", args), desc, rows.len() >= 2);
+    }
+}
+
 // ------------------------------------------------------------------------------------------ (M) monotonic mappings
 fn section_mono(rng: &mut Rng, out: &mut CaseOut, thorough: bool) {
     let n = if thorough { 400 } else { 120 };
@@ -414,6 +476,7 @@ fn main() {
     if want("bitpacker") { section_bitpacker(&mut rng.fork(), &mut out, thorough); }
     if want("codecs") { section_codecs(&mut rng.fork(), &mut out, thorough); }
     if want("mono") { section_mono(&mut rng.fork(), &mut out, thorough); }
+    if want("optidx") { section_optional_index(&mut rng.fork(), &mut out, thorough); }
     if want("columnar") { c08_columnar::section_columnar(&mut rng.fork(), &mut out, thorough); }
     if want("tantivy") { c08_tantivy::section_tantivy(&mut rng.fork(), &mut out, thorough); }
 
